@@ -144,6 +144,47 @@ def run(ctx):
                   h.where(), "; ".join(bad[:2]))
         ctx.check(not badp and n_present >= 1, "R07.5", "%s|present-is-rejected" % name, "a key found present at execution time is answered Rejected(KeyAlreadyExists)", h.where(), "; ".join(badp[:2]))
     ctx.floor("R07.5", "put handlers on the worker", n_h, 1)
+    # ---- R07.7 nothing is taken out of the store for a put before its key has been found not readable: a removal that
+    # precedes the presence test must itself be conditioned on exactly "not alive" (the liveness predicate of R09.1), else an
+    # entry that reads are still serving (e.g. at its expiry instant) is removed and the put is admitted over it
+    from sym import focus, bool_outcomes
+    rstop = focus(F, set(S.insert_fns) | set(preds) | set(S.remove_fns))
+
+    def removes_only_dead(gname):
+        g = F.fns[gname]
+        sites = [(h, b, t) for h in [g] + F.closures_of(g) for b, t in h.calls() if (dashmap_call(t) or ("", ""))[1] == "S" and dashmap_call(t)[0] in ("remove", "remove_if", "remove_if_mut")]
+        if not sites:
+            return False
+        for h, b, t in sites:
+            if dashmap_call(t)[0] == "remove" or len(t["args"]) < 3:
+                return False
+            clo = h.op_origin(t["args"][2])
+            if not (clo[0] == "agg" and clo[1] in F.fns):
+                return False
+            rows = set()
+            for p_ in ipaths(F, F.fns[clo[1]], stop=lambda n_: n_ in L.alive_fns, depth=2):
+                for atoms, res in bool_outcomes(p_):
+                    al = [a for a in atoms if a[0] == "bool" and a[1][0] == "call" and a[1][1] in L.alive_fns and a[1][2] and mentions(a[1][2][L.alive_param.get(a[1][1], 1) - 1], lambda s_: s_ == ("param", 3))]
+                    rows.add((al[0][2] if al else None, res))
+            if rows != {(True, False), (False, True)}:
+                return False
+        return True
+    for name in outer:
+        h, _ = hc[name]
+        bad7 = []
+        for p in ipaths(F, h, stop=rstop, depth=3):
+            ins = p.calls(S.insert_fns)
+            if not ins:
+                continue
+            kp, ip = c05.insert_params(F, F.fns[ins[0].callee])
+            key = ins[0].args[kp - 1] if kp else None
+            absent = [a[4] for a in p.atoms if a[0] == "bool" and a[1][0] == "call" and a[1][1] in preds and not a[2] and key is not None and same_value(a[1][2][pred_key[a[1][1]] - 1], key)]
+            t0 = min(absent) if absent else None
+            for e in p.calls(S.remove_fns):
+                if key is not None and any(same_value(a, key) for a in e.args[1:]) and (t0 is None or e.seq < t0) and not removes_only_dead(e.callee):
+                    bad7.append("%s removes the put's key before the key was found not readable" % e.callee.split("::")[-1])
+        ctx.check(not bad7, "R07.7", "%s|no-removal-before-presence-test" % name,
+                  "a put takes the key's old entry out of the store only after the presence predicate reported the key not readable (or through a removal conditioned on exactly the liveness predicate)", h.where(), "; ".join(sorted(set(bad7))[:2]))
 
     # ---- R07.4 the existence test must wait for the shard: try_* lookups answer "absent" while a writer holds it
     for m in ("try_get", "try_get_mut"):
